@@ -9,12 +9,12 @@ variable {c : PCtx} {A B T q : String} {fs : List FieldSpec}
 /-- the realised insertion point of the object under `q` with id `i` -/
 def pointQ (q i : String) : String := q ++ "#" ++ i
 
-theorem extract_pointQ (q i : String) (hq1 : '#' ∉ q.toList) (hq2 : ':' ∉ q.toList) (hi : '#' ∉ i.toList) :
+theorem extract_pointQ (q i : String) (hq1 : '#' ∉ q.toList) (hq2 : ':' ∉ q.toList) :
     Point.extract (pointQ q i) = .ok ⟨q, none, i⟩ := by
   unfold Point.extract pointQ
   have : (q ++ "#" ++ i).toList = q.toList ++ '#' :: i.toList := by
     simp [String.toList_append]
-  rw [this, C01_point_roundtrip_obj q.toList i.toList hq1 hq2 hi]
+  rw [this, C01_point_roundtrip_obj q.toList i.toList hq1 hq2]
   simp [String.ofList_toList]
 
 theorem isListElement_pointQ (q i : String) (hq2 : ':' ∉ q.toList) (hne : q.toList ≠ []) (hq1 : '#' ∉ q.toList) :
@@ -60,7 +60,7 @@ theorem buildBatch_root (c : PCtx) (st : Step) (hroot : isRootName st.parentType
 theorem findIP_q (h : Fam c A B T q fs) (i : String) (a : List (String × J)) :
     findIP [q] [Qown T q fs] (respA q i a) [] = .ok [[pointQ q i]] := by
   have hfs : findSelection q [Qown T q fs] = some (Qown T q fs) := by
-    simp [findSelection, findSelectionSel, Qown]
+    exact findSelection_head q q [] [] _ [] _ [] q (by simp)
   unfold findIP
   rw [hfs]
   simp [respA, J.lookup, selType, Qown, TypeRef.isNonNull, TypeRef.isList, extractID, bind, Except.bind, fmtID,
@@ -103,14 +103,14 @@ theorem depth0 (h : Fam c A B T q fs) (down : Downstream) (i : String) (a : List
 def stepB (B T q : String) (bs : List FieldSpec) : Step := .mk B T (convertToNodeQuery T (leaves bs)) [q] []
 
 theorem buildBatch_child (h : FamT c A B T q fs) (bs : List FieldSpec) (i : String)
-    (hq1 : '#' ∉ q.toList) (hq2 : ':' ∉ q.toList) (hi : '#' ∉ i.toList) (hine : i ≠ "") :
+    (hq1 : '#' ∉ q.toList) (hq2 : ':' ∉ q.toList) (hine : i ≠ "") :
     buildBatch c {} none [⟨stepB B T q bs, [pointQ q i]⟩]
       = .ok ([rqOf c (stepB B T q bs) [("id", .str i)]], [some 0]) := by
   have hT : isRootName (stepB B T q bs).parentType = false := by simpa [stepB, Step.parentType] using h.hTroot
   unfold buildBatch
   rw [buildBatch.go]
   have hine' : (i == "") = false := by simpa using hine
-  simp only [getVariables, List.getLast?_singleton, extract_pointQ q i hq1 hq2 hi, bind, Except.bind, hine',
+  simp only [getVariables, List.getLast?_singleton, extract_pointQ q i hq1 hq2, bind, Except.bind, hine',
     Bool.false_eq_true, ↓reduceIte, J.setKey, isNeedToQuery, hT, dedupKey, Bool.not_false, List.idxOf?_nil]
   simp [buildBatch.go, rqOf]
 
@@ -122,12 +122,12 @@ theorem parseOne_child (h : FamT c A B T q fs) (bs : List FieldSpec) (p : String
   simp [stepB, Step.thn, pure, Except.pure]
 
 theorem mergeResult_child (q i : String) (a b : List (String × J))
-    (hq1 : '#' ∉ q.toList) (hq2 : ':' ∉ q.toList) (hqne : q.toList ≠ []) (hi : '#' ∉ i.toList)
+    (hq1 : '#' ∉ q.toList) (hq2 : ':' ∉ q.toList) (hqne : q.toList ≠ [])
     (hbnd : (J.keys b).Nodup) (hdisj : ∀ k ∈ J.keys b, k ∉ J.keys (("id", J.str i) :: a)) :
     mergeResult (respA q i a) [pointQ q i] b = .ok [(q, .obj (("id", .str i) :: a ++ b))] := by
   unfold mergeResult
   rw [updateAt]
-  simp only [extract_pointQ q i hq1 hq2 hi, bind, Except.bind, isListElement_pointQ q i hq2 hqne hq1,
+  simp only [extract_pointQ q i hq1 hq2, bind, Except.bind, isListElement_pointQ q i hq2 hqne hq1,
     Bool.false_eq_true, ↓reduceIte, respA, J.lookup, updateAt, J.setKey]
   rw [Spec.mergeInto_disjoint b _ hbnd hdisj]
 
@@ -138,7 +138,7 @@ theorem stepsB_eq (B T q : String) (b0 : FieldSpec) (bs : List FieldSpec) :
     object is merged into the object under `q`. -/
 theorem depth1 (h : Fam c A B T q fs) (down : Downstream) (bs : List FieldSpec) (i : String)
     (a b : List (String × J)) (calls : List Call)
-    (hq1 : '#' ∉ q.toList) (hq2 : ':' ∉ q.toList) (hqne : q.toList ≠ []) (hi : '#' ∉ i.toList) (hine : i ≠ "")
+    (hq1 : '#' ∉ q.toList) (hq2 : ':' ∉ q.toList) (hqne : q.toList ≠ []) (hine : i ≠ "")
     (hdown : down B [rqOf c (stepB B T q bs) [("id", .str i)]] = .ok [[("node", .obj b)]])
     (hbnd : (J.keys b).Nodup) (hdisj : ∀ k ∈ J.keys b, k ∉ J.keys (("id", J.str i) :: a)) :
     execDepth c {} none down [⟨stepB B T q bs, [pointQ q i]⟩] ⟨respA q i a, calls⟩
@@ -147,15 +147,15 @@ theorem depth1 (h : Fam c A B T q fs) (down : Downstream) (bs : List FieldSpec) 
   have hurl : (stepB B T q bs).url = B := rfl
   unfold execDepth
   simp only [partitionByURL, List.foldl_cons, List.foldl_nil, List.find?_nil, List.nil_append, hurl,
-    List.foldlM_cons, List.foldlM_nil, bind, Except.bind, buildBatch_child h.toFamT bs i hq1 hq2 hi hine, hdown,
+    List.foldlM_cons, List.foldlM_nil, bind, Except.bind, buildBatch_child h.toFamT bs i hq1 hq2 hine, hdown,
     List.length_cons, List.length_nil, bne_self_eq_false, Bool.false_eq_true, ↓reduceIte, List.zip_cons_cons,
     List.zip_nil_right, List.getElem?_cons_zero, Option.getD_some, parseOne_child h.toFamT bs (pointQ q i) b,
-    mergeResult_child q i a b hq1 hq2 hqne hi hbnd hdisj, pure, Except.pure, List.append_nil]
+    mergeResult_child q i a b hq1 hq2 hqne hbnd hdisj, pure, Except.pure, List.append_nil]
 
 /-- **Stage 3 — execute**: two depths (one if `B` owns nothing); the result is the object under `q`
     with the helper id, `A`'s answers, then `B`'s answers. -/
 theorem stage_execute (h : Fam c A B T q fs) (down : Downstream) (i : String) (a b : List (String × J))
-    (hq1 : '#' ∉ q.toList) (hq2 : ':' ∉ q.toList) (hqne : q.toList ≠ []) (hi : '#' ∉ i.toList) (hine : i ≠ "")
+    (hq1 : '#' ∉ q.toList) (hq2 : ':' ∉ q.toList) (hqne : q.toList ≠ []) (hine : i ≠ "")
     (hA : down A [rqOf c (rootStep A B T q fs) []] = .ok [respA q i a])
     (hB : fsB fs ≠ [] → down B [rqOf c (stepB B T q (fsB fs)) [("id", .str i)]] = .ok [[("node", .obj b)]])
     (hb0 : fsB fs = [] → b = [])
@@ -185,7 +185,7 @@ theorem stage_execute (h : Fam c A B T q fs) (down : Downstream) (i : String) (a
       List.map_cons, List.map_nil]
     rw [execLoop]
     simp only [List.isEmpty_cons, Bool.false_eq_true, ↓reduceIte, bind, Except.bind,
-      depth1 h down (b0 :: bs) i a b _ hq1 hq2 hqne hi hine hB' hbnd hdisj, execLoop]
+      depth1 h down (b0 :: bs) i a b _ hq1 hq2 hqne hine hB' hbnd hdisj, execLoop]
     exact ⟨_, rfl⟩
 
 end PebblesVerif.Flat
